@@ -787,12 +787,18 @@ package machine
 //@ func (m *Machine) breakpoint(added S, removed S)
 //@   trusted debugging aid
 
+// ApiPre: what a caller of the public mutation API may rely on for a live,
+// idle-or-busy machine (established by New and preserved by the API).
+//@ pred ApiPre(m *Machine) := unlocked(m.activeStatesMx) && unlocked(m.schemaMx) && unlocked(m.queueMx) && unlocked(m.tracersMx)
+//@   && QueueInv(m) && SchemaInv(m) && len(m.queue) < 65535 && m.queueTick + m.queueTicksPending < MaxU64
+//@   && (forall i int :: 0 <= i && i < len(m.tracers) ==> m.tracers[i] != nil)
+
 // Guarded: the call is refused without any effect.
 //@ pred Refused(m *Machine, r Result) := r == Canceled
 
 //@ func (m *Machine) Add(states S, args A) (r Result)
 //@   props C03 C13
-//@   requires locks: unlocked(m.activeStatesMx)
+//@   requires api:   ApiPre(m) && Known(m, states)
 //@   assigns *
 //@   ensures  disposing: old(m.disposing) ==> r == Canceled && ghost.applied == old(ghost.applied) && unchanged(m.queue, m.queueTick, m.activeStates) && mapeq(m.clock, old(m.clock))
 //@   ensures  backoff:   m.Backoff() ==> r == Canceled && unchanged(m.queue, m.queueTick, m.activeStates) && mapeq(m.clock, old(m.clock))
@@ -800,7 +806,7 @@ package machine
 
 //@ func (m *Machine) Remove(states S, args A) (r Result)
 //@   props C03 C13
-//@   requires locks: unlocked(m.activeStatesMx) && unlocked(m.queueMx)
+//@   requires api:   ApiPre(m) && Known(m, states)
 //@   assigns *
 //@   ensures  disposing: old(m.disposing) ==> r == Canceled && unchanged(m.queue, m.queueTick, m.activeStates) && mapeq(m.clock, old(m.clock))
 //@   ensures  backoff:   m.Backoff() ==> r == Canceled && unchanged(m.queue, m.queueTick, m.activeStates) && mapeq(m.clock, old(m.clock))
@@ -808,6 +814,7 @@ package machine
 
 //@ func (m *Machine) Set(states S, args A) (r Result)
 //@   props C03 C13
+//@   requires api:   ApiPre(m) && Known(m, states)
 //@   assigns *
 //@   ensures  disposing: old(m.disposing) ==> r == Canceled && unchanged(m.queue, m.queueTick, m.activeStates) && mapeq(m.clock, old(m.clock))
 //@   ensures  backoff:   m.Backoff() ==> r == Canceled && unchanged(m.queue, m.queueTick, m.activeStates) && mapeq(m.clock, old(m.clock))
@@ -815,12 +822,14 @@ package machine
 
 //@ func (m *Machine) CanAdd(states S, args A) (r Result)
 //@   props C03 C13
+//@   requires api:   ApiPre(m) && Known(m, states)
 //@   assigns *
 //@   ensures  disposing: old(m.disposing) ==> r == Canceled && unchanged(m.queue, m.queueTick, m.activeStates) && mapeq(m.clock, old(m.clock))
 //@   ensures  backoff:   m.Backoff() ==> r == Canceled && unchanged(m.queue, m.queueTick, m.activeStates) && mapeq(m.clock, old(m.clock))
 
 //@ func (m *Machine) CanRemove(states S, args A) (r Result)
 //@   props C03 C13
+//@   requires api:   ApiPre(m) && Known(m, states)
 //@   assigns *
 //@   ensures  disposing: old(m.disposing) ==> r == Canceled && unchanged(m.queue, m.queueTick, m.activeStates) && mapeq(m.clock, old(m.clock))
 //@   ensures  backoff:   m.Backoff() ==> r == Canceled && unchanged(m.queue, m.queueTick, m.activeStates) && mapeq(m.clock, old(m.clock))
@@ -896,6 +905,7 @@ package machine
 
 //@ func closeSafe[T any](ch chan T)
 //@   trusted closes the channel unless it is already closed (select on a receive); modelled by the closed-channel ghost state
+//@   closes ch
 //@   ensures closed: closed(ch)
 
 // SubsInv: every index map of the subscription manager exists.
@@ -950,3 +960,30 @@ package machine
 //@   trusted debug-trace accessor
 //@ func (s *Step) GetToState(index S) (r string)
 //@   trusted debug-trace accessor
+
+// processWhenQueryCtx drops the query bindings whose context has expired: only
+// the query indexes may change.
+//@ func (sm *Subscriptions) processWhenQueryCtx() (ret []chan struct{})
+//@   props C06
+//@   abstracts ctx.Err() is an opaque interface call; gcWhenQueryBinding is inlined
+//@   requires inv: SubsInv(sm)
+//@   requires nn:  (forall c context.Context, i int :: has(sm.whenQueryCtx, c) && 0 <= i && i < len(sm.whenQueryCtx[c]) ==> sm.whenQueryCtx[c][i] != nil)
+//@   assigns  sm.whenQueryCtx, sm.whenQuery
+
+// dispose: every waiter is released.
+//@ func (sm *Subscriptions) dispose()
+//@   props C13 C06
+//@   abstracts state-context cancel functions are opaque callbacks
+//@   requires nn: (forall s string, i int :: has(sm.when, s) && 0 <= i && i < len(sm.when[s]) ==> sm.when[s][i] != nil)
+//@            && (forall s string, i int :: has(sm.whenTime, s) && 0 <= i && i < len(sm.whenTime[s]) ==> sm.whenTime[s][i] != nil)
+//@            && (forall s string, i int :: has(sm.whenArgs, s) && 0 <= i && i < len(sm.whenArgs[s]) ==> sm.whenArgs[s][i] != nil)
+//@            && (forall i int :: 0 <= i && i < len(sm.whenQueueEnds) ==> sm.whenQueueEnds[i] != nil)
+//@            && (forall i int :: 0 <= i && i < len(sm.whenQueue) ==> sm.whenQueue[i] != nil)
+//@            && (forall i int :: 0 <= i && i < len(sm.whenQuery) ==> sm.whenQuery[i] != nil)
+//@            && (forall s string :: has(sm.stateCtx, s) ==> sm.stateCtx[s] != nil)
+//@   ensures  when:     forall s string, i int :: has(sm.when, s) && 0 <= i && i < len(sm.when[s]) ==> closed(sm.when[s][i].Ch)
+//@   ensures  whenTime: forall s string, i int :: has(sm.whenTime, s) && 0 <= i && i < len(sm.whenTime[s]) ==> closed(sm.whenTime[s][i].Ch)
+//@   ensures  whenArgs: forall s string, i int :: has(sm.whenArgs, s) && 0 <= i && i < len(sm.whenArgs[s]) ==> closed(sm.whenArgs[s][i].ch)
+//@   ensures  queueEnds: forall i int :: 0 <= i && i < len(sm.whenQueueEnds) ==> closed(sm.whenQueueEnds[i].ch)
+//@   ensures  queue:    forall i int :: 0 <= i && i < len(sm.whenQueue) ==> closed(sm.whenQueue[i].ch)
+//@   ensures  query:    forall i int :: 0 <= i && i < len(sm.whenQuery) ==> closed(sm.whenQuery[i].ch)
